@@ -18,6 +18,35 @@ def _counter_sets(t):
     return [e for e in events(t) if e[0] == 'SET']
 
 
+def _result_test(e):
+    """('ok'|'err') when the path event is the edge of a test `r.is_ok()` / `r.is_err()` / `if let Ok(..) = r` / `match r`
+    on a Result: the edge on which the forwarded call has failed is an error continuation although no `?` is involved"""
+    if e[0] != 'ARM':
+        return None
+    sc, taken = e[1], e[2]
+    if isinstance(sc, tuple) and sc and sc[0] == 'if':
+        c = strip(sc[1])
+        neg = False
+        while isinstance(c, tuple) and c and c[0] == 'un' and c[1] == 'Not':
+            c = strip(c[2])
+            neg = not neg
+        if isinstance(c, tuple) and c and c[0] == 'call' and c[1] in ('is_ok', 'is_err'):
+            ok = (c[1] == 'is_ok') == (taken == 'true')
+            if neg:
+                ok = not ok
+            return 'ok' if ok else 'err'
+        if isinstance(c, tuple) and c and c[0] == 'letcond' and c[1] in ('Ok', 'Err'):
+            ok = (c[1] == 'Ok') == (taken == 'true')
+            return 'ok' if ok else 'err'
+        return None
+    if isinstance(taken, tuple) and len(taken) > 1 and taken[0] == 'pat' and isinstance(taken[1], str):
+        if taken[1].startswith('Ok'):
+            return 'ok'
+        if taken[1].startswith('Err'):
+            return 'err'
+    return None
+
+
 def check_counter_method(out, facts, fn, kind):
     key = fkey(fn)
     t, v, ev = input_method_term(facts, fn)
@@ -31,7 +60,7 @@ def check_counter_method(out, facts, fn, kind):
     for p in ps:
         fw = [i for i, e in enumerate(p) if e[0] == fwd_kind]
         sets = [i for i, e in enumerate(p) if e[0] == 'SET' and is_self_field(e[1], 'counter')]
-        errs = [i for i, e in enumerate(p) if e[0] in ('?ERR', 'ERR')]
+        errs = [i for i, e in enumerate(p) if e[0] in ('?ERR', 'ERR') or _result_test(e) == 'err']
         if len(fw) != 1:
             out.fail('R19.1', key + '/forward-once', 'a path through %s forwards %d times to the wrapped input' % (kind, len(fw)), loc)
             ok_all = False
@@ -61,7 +90,7 @@ def check_counter_method(out, facts, fn, kind):
         if errs and sets and min(sets) > min(errs):
             out.fail('R19.1', key + '/err-path-update', 'counter updated after an error exit', loc)
     # the successful path updates exactly once
-    okp = [p for p in ps if not (p and p[-1][0] in ('?ERR', 'ERR'))]
+    okp = [p for p in ps if not (p and p[-1][0] in ('?ERR', 'ERR')) and not any(_result_test(e) == 'err' for e in p)]
     for p in okp:
         sets = [e for e in p if e[0] == 'SET' and is_self_field(e[1], 'counter')]
         out.ob('R19.1', key + '/once-on-success', len(sets) == 1,
